@@ -1,106 +1,2 @@
-// ===== prelude: model of the crate-level types the extracted functions mention =====
-// R2: GDError is modelled as {kind}; the error *source* and *backtrace* are dropped (no property
-//     speaks about them).  `K.context(x)` and `K.into()` keep their real syntax.
-// R5: byteorder::ByteOrder is an in-file trait; the specs of its read_* functions are ASSUMED here and
-//     re-proved against the real byteorder code by the Kani harnesses in kani/byteorder_specs.rs.
-
-pub struct GDError { pub kind: GDErrorKind }
-pub type GDResult<T> = Result<T, GDError>;
-
-impl GDErrorKind {
-    #[verifier::external_body]
-    pub fn context<E>(self, source: E) -> (r: GDError)
-        ensures r.kind == self
-    { unimplemented!() }
-}
-impl vstd::std_specs::convert::FromSpecImpl<GDErrorKind> for GDError {
-    open spec fn obeys_from_spec() -> bool { true }
-    open spec fn from_spec(v: GDErrorKind) -> Self { GDError { kind: v } }
-}
-impl From<GDErrorKind> for GDError {
-    fn from(value: GDErrorKind) -> (r: Self) { GDError { kind: value } }
-}
-
-// R1 targets
-#[verifier::external_body]
-pub fn verif_format() -> String { unimplemented!() }
-pub fn verif_unit() { }
-
-// ---- little/big endian decoding of byte sequences (spec vocabulary) ----
-pub open spec fn le_nat(s: Seq<u8>) -> nat
-    decreases s.len()
-{
-    if s.len() == 0 { 0 } else { (s[0] as nat) + 256 * le_nat(s.subrange(1, s.len() as int)) }
-}
-pub open spec fn be_nat(s: Seq<u8>) -> nat
-    decreases s.len()
-{
-    if s.len() == 0 { 0 } else { be_nat(s.subrange(0, s.len() - 1)) * 256 + (s[s.len() - 1] as nat) }
-}
-pub open spec fn ord_nat(le: bool, s: Seq<u8>) -> nat { if le { le_nat(s) } else { be_nat(s) } }
-
-// two's complement reinterpretation
-pub open spec fn as_signed(v: nat, bits: nat) -> int {
-    if v >= vstd::arithmetic::power2::pow2((bits - 1) as nat) { v as int - vstd::arithmetic::power2::pow2(bits) as int } else { v as int }
-}
-pub uninterp spec fn f32_of_bits(v: nat) -> f32;
-pub uninterp spec fn f64_of_bits(v: nat) -> f64;
-
-pub trait ByteOrder: Sized {
-    spec fn is_le() -> bool;
-    fn read_u16(buf: &[u8]) -> (r: u16)
-        requires buf@.len() >= 2
-        ensures r as nat == ord_nat(Self::is_le(), buf@.subrange(0, 2));
-    fn read_i16(buf: &[u8]) -> (r: i16)
-        requires buf@.len() >= 2
-        ensures r as int == as_signed(ord_nat(Self::is_le(), buf@.subrange(0, 2)), 16);
-    fn read_u32(buf: &[u8]) -> (r: u32)
-        requires buf@.len() >= 4
-        ensures r as nat == ord_nat(Self::is_le(), buf@.subrange(0, 4));
-    fn read_i32(buf: &[u8]) -> (r: i32)
-        requires buf@.len() >= 4
-        ensures r as int == as_signed(ord_nat(Self::is_le(), buf@.subrange(0, 4)), 32);
-    fn read_u64(buf: &[u8]) -> (r: u64)
-        requires buf@.len() >= 8
-        ensures r as nat == ord_nat(Self::is_le(), buf@.subrange(0, 8));
-    fn read_i64(buf: &[u8]) -> (r: i64)
-        requires buf@.len() >= 8
-        ensures r as int == as_signed(ord_nat(Self::is_le(), buf@.subrange(0, 8)), 64);
-    fn read_f32(buf: &[u8]) -> (r: f32)
-        requires buf@.len() >= 4
-        ensures r == f32_of_bits(ord_nat(Self::is_le(), buf@.subrange(0, 4)));
-    fn read_f64(buf: &[u8]) -> (r: f64)
-        requires buf@.len() >= 8
-        ensures r == f64_of_bits(ord_nat(Self::is_le(), buf@.subrange(0, 8)));
-    fn read_u16_into(src: &[u8], dst: &mut [u16])
-        requires src@.len() == 2 * old(dst)@.len()
-        ensures
-            final(dst)@.len() == old(dst)@.len(),
-            forall|i: int| 0 <= i < final(dst)@.len() ==> (#[trigger] final(dst)@[i]) as nat == ord_nat(Self::is_le(), src@.subrange(2 * i, 2 * i + 2));
-}
-pub struct LittleEndian;
-pub struct BigEndian;
-impl ByteOrder for LittleEndian {
-    open spec fn is_le() -> bool { true }
-    #[verifier::external_body] fn read_u16(buf: &[u8]) -> (r: u16) { unimplemented!() }
-    #[verifier::external_body] fn read_i16(buf: &[u8]) -> (r: i16) { unimplemented!() }
-    #[verifier::external_body] fn read_u32(buf: &[u8]) -> (r: u32) { unimplemented!() }
-    #[verifier::external_body] fn read_i32(buf: &[u8]) -> (r: i32) { unimplemented!() }
-    #[verifier::external_body] fn read_u64(buf: &[u8]) -> (r: u64) { unimplemented!() }
-    #[verifier::external_body] fn read_i64(buf: &[u8]) -> (r: i64) { unimplemented!() }
-    #[verifier::external_body] fn read_f32(buf: &[u8]) -> (r: f32) { unimplemented!() }
-    #[verifier::external_body] fn read_f64(buf: &[u8]) -> (r: f64) { unimplemented!() }
-    #[verifier::external_body] fn read_u16_into(src: &[u8], dst: &mut [u16]) { unimplemented!() }
-}
-impl ByteOrder for BigEndian {
-    open spec fn is_le() -> bool { false }
-    #[verifier::external_body] fn read_u16(buf: &[u8]) -> (r: u16) { unimplemented!() }
-    #[verifier::external_body] fn read_i16(buf: &[u8]) -> (r: i16) { unimplemented!() }
-    #[verifier::external_body] fn read_u32(buf: &[u8]) -> (r: u32) { unimplemented!() }
-    #[verifier::external_body] fn read_i32(buf: &[u8]) -> (r: i32) { unimplemented!() }
-    #[verifier::external_body] fn read_u64(buf: &[u8]) -> (r: u64) { unimplemented!() }
-    #[verifier::external_body] fn read_i64(buf: &[u8]) -> (r: i64) { unimplemented!() }
-    #[verifier::external_body] fn read_f32(buf: &[u8]) -> (r: f32) { unimplemented!() }
-    #[verifier::external_body] fn read_f64(buf: &[u8]) -> (r: f64) { unimplemented!() }
-    #[verifier::external_body] fn read_u16_into(src: &[u8], dst: &mut [u16]) { unimplemented!() }
-}
+/*@ include path=prelude_err.rs @*/
+/*@ include path=prelude_bo.rs @*/
